@@ -10,9 +10,11 @@ PROPERTY = "C20"
 FILES = ["betterproto/enum.py", "betterproto/__init__.py"]
 NUMBERS = [0, 1, -1, 5, (1 << 31) - 1, -(1 << 31)]
 NAMES = ["ZERO", "A", "B", "C"]
+# member names as the plugin spells them for unusual proto names: digit-leading names get a leading underscore, keywords a trailing one
+ODD_NAMES = ["ZERO", "_4K", "lower_case", "None_"]
 
 
-def make_enum(numbers):
+def make_enum(numbers, NAMES=NAMES):
     import betterproto
     from betterproto.enum import EnumType
 
@@ -25,8 +27,9 @@ def make_enum(numbers):
 def h_api(env):
     """definitions with 1..4 members over numbers incl. 0, negatives, gaps and aliases: lookup, identity, immutability"""
     k = env.params["members"]
+    NAMES = ODD_NAMES if env.params.get("names") == "odd" else globals()["NAMES"]
     numbers = [0] + [NUMBERS[env.choose("n%d" % i, len(NUMBERS))] for i in range(1, k)]
-    E = make_enum(numbers)
+    E = make_enum(numbers, NAMES)
     canonical = {}
     for name, v in zip(NAMES, numbers):
         canonical.setdefault(v, name)
@@ -165,6 +168,8 @@ def units(tier):
     u = []
     for k in (1, 2, 3, 4):
         u.append(("api[%d members]" % k, h_api, {"members": k}))
+    for k in (2, 4):
+        u.append(("api[%d members, names _4K / lower_case / None_]" % k, h_api, {"members": k, "names": "odd"}))
     for pos in ("s", "r", "m", "o", "p"):
         u.append(("positions[%s]" % {"s": "singular", "r": "repeated", "m": "map value", "o": "oneof", "p": "optional"}[pos], h_positions, {"position": pos}))
     return u
